@@ -157,7 +157,6 @@ theorem sysvDom_lt {t : Nat} (h : sysvDom t = true) : t < 101 := by
     Bool.and_eq_true, decide_eq_true_eq, Bool.not_eq_true'] at h
   rcases h with ((⟨h, _⟩ | h | h) | h) | h <;> first | omega | (have := of_decide_eq_true h; omega)
 
-theorem unpack_x64 (t : Nat) : unpack .x64 t = [t] := by simp [unpack]
 
 /-- the whole argument loop: answers = rules applied position by position; the final counter state is the rules' state -/
 theorem sysv_loop (va : Bool) : ∀ (ts : List Nat) (i : Nat) (s : St) (older : List Nat), SysvInv s older →
